@@ -7,7 +7,7 @@
 SLOT=$1; P=$2; ID=$3; TIER=${4:-quick}
 S=/tmp/par/$SLOT
 mkdir -p $S/repo $S/verif || exit 2
-rsync -a --delete --exclude /target /repo/ $S/repo/ || exit 2
+rsync -a --delete --exclude /target --exclude /.git/worktrees /repo/ $S/repo/; rc=$?; [ $rc = 0 -o $rc = 24 ] || exit 2
 rsync -a --delete --exclude /evidence --exclude /replays --exclude /target ${PAR_SRC:-/verif}/ $S/verif/ || exit 2
 # the slot keeps its own build cache; it is seeded once from /verif/target (files of a running build may vanish: fine)
 [ -d $S/verif/target ] || { rsync -a /verif/target/ $S/verif/target/; [ $? = 0 -o $? = 24 ] || exit 2; }
